@@ -674,14 +674,15 @@ class OrConstraint(AbstractConstraint):
 class _ConstrainedValue(Value):
     """Helper class, only used within a FunctionScope."""
 
-    definition_nodes: frozenset[Node]
+    definition_nodes: tuple[Node, ...]
+    """Without duplicates, in the order the definitions were made."""
     constraints: Sequence[Constraint]
     resolution_cache: dict[_LookupContext, Value] = field(
         default_factory=dict, init=False, compare=False, hash=False, repr=False
     )
 
 
-_empty_constrained = _ConstrainedValue(frozenset(), [])
+_empty_constrained = _ConstrainedValue((), [])
 
 
 @dataclass
@@ -1067,7 +1068,9 @@ class FunctionScope(Scope):
                 return
 
         varname = constraint.varname.get_varname()
-        def_nodes = frozenset(self.name_to_current_definition_nodes[varname])
+        def_nodes = tuple(
+            dict.fromkeys(self.name_to_current_definition_nodes[varname])
+        )
         # We set both a constraint and its inverse using the same node as the definition
         # node, so cheat and include the constraint itself in the key.
         node = (node, constraint)
@@ -1093,7 +1096,7 @@ class FunctionScope(Scope):
             else:
                 val = self.definition_node_to_value[definer]
                 if isinstance(val, _ConstrainedValue):
-                    pending |= val.definition_nodes
+                    pending.update(val.definition_nodes)
                 else:
                     out.add(definer)
         if not out:
